@@ -149,6 +149,23 @@ def run(ck, prog, tier, load):
     from .c11 import url_update
     url_update(ck, prog, "C09-d")
 
+    # ---- (b) a route keeps the guards it was given: every builder step hands back the same route -----------------
+    nb = 0
+    for b in prog.find(r"^actix_web::route::Route::(service|to|method|guard|wrap)$"):
+        me = args_of_type(b, r"^actix_web::route::Route$")
+        rets = b.ret_exprs()
+        def keeps(e):
+            if is_local(e, me):
+                return True
+            if is_agg(e, r"route::Route$"):
+                return any(root_is(o, me) and e_has_field(o, r"Route\.guards$") for o in e[3] if isinstance(o, tuple))
+            return False
+        ok = bool(me) and bool(rets) and all(keeps(e) for bb, e in rets)
+        nb += 1
+        ck.ob("C09-b.builder-keeps-guards", "Route::" + b.npath.split("::")[-1], ok, b, rets[0][0] if rets else None,
+              "the route handed back by the builder step is the receiver (or is rebuilt with the receiver's guard list): guards registered before .to()/.service() still select the route")
+    ck.anchor("C09", nb, 5, "Route builder steps (service, to, method, guard, wrap)")
+
 
 def data_stack_rules(ck, prog, P):
     """the per-request stack of data containers: root at index 0, scope/resource containers pushed while descending,
